@@ -136,14 +136,18 @@ def rule_y3b(chk: Check, ix: Index):
     if not writes:
         chk.fail("Y3-line-cache", "Tokenizer:_lines-writes", repo.TOKENIZER, "the line cache is never filled")
         return
+    from .. import physlines
+    helper = physlines.rule_helper(chk, ix, "Y3-line-cache")
     for f, n, k, v in writes:
         chk.count("Y3-line-cache")
-        import re as _re
-        m = _re.fullmatch(r"(\w+)\.start\[0\]", k)
-        ok = bool(m) and v == f"{m.group(1)}.line"
+        ok = False
+        if helper is not None:
+            for loop, num, text in physlines.consumer_loops(f.node, helper):
+                if any(n is x for st in loop.body for x in ast.walk(st)) and k == num and v == text:
+                    ok = True
         chk.require(ok, "Y3-line-cache", f"{f.qual}:{norm_stmt(n)[:60]}", f"{f.rel}:{n.lineno}",
-                    f"the cache entry for line `{k}` is filled with `{v}`; only `tok.line` stored under `tok.start[0]` is known to be the "
-                    f"text of that line (a multi-line token's `line` is not aligned with the lines it spans)")
+                    f"the cache entry for line `{k}` is filled with `{v}`; entries must be the (number, text) pairs of the physical lines "
+                    f"of the token (all of them: a multi-line string's interior lines have no token of their own), first writer wins")
 
 
 def _pos_source(e: ast.expr) -> Optional[tuple[str, str]]:
